@@ -576,6 +576,7 @@ def jobs(tier, seed):
         "sc-layer": ([F([S(2), S(1)])], {"out_dom": {"*": [5, 6]}}),
         "feature-layer": ([F([S(1), R([S(1)])])], {"out_dom": {"*": [6, 6]}, "cleanup_layer": "feature"}),
         "testrun-layer": ([F([S(1)]), F([S(1)])], {"out_dom": {"*": [6, 6]}, "cleanup_layer": "testrun"}),
+        "hook-skip": ([F([S(1), S(1)])], {"out_dom": {"*": [6, 6]}, "hook_skip_scenario": True, "undef": False}),
         "shared-feature-layer": ([F([S(1), S(2), S(1)])], {"out_dom": {"*": [5, 6]}, "cleanup_layer": "feature", "cleanup_shared": True}),
     }
     if tier == "thorough":
